@@ -7,27 +7,139 @@ import rcommon
 META = {
     "property_id": "C05",
     "technique": "Coq proofs (deadlock freedom by a publication-clock invariant, termination by a variant) over an interleaving "
-                 "model of runner/runner.go + trace acceptance of hook logs of the real runner + watchdog",
+                 "model of runner/runner.go + trace acceptance of hook logs of the real runner + watchdog + controlled scheduler on "
+                 "the real runner + end-to-end builds of generated projects",
     "level_text": "Theorems (Coq, every directed graph incl. self-loops and overlapping cycles, every schedule, every limit >= 1): "
                   "every reachable non-quiescent state has an enabled thread (no deadlock, also before Run returns); every "
                   "schedule has at most bound(cfg) steps (no livelock; the walk visits each label at most once); a cyclic result "
                   "arises only if the declared dependencies have a cycle through that target, reachable from the root (none in "
                   "acyclic builds); if a cycle is reachable from the root, Run returns an error and by then some target was "
-                  "handed a CyclicDependencyError. A 2-cycle witness schedule and exhaustive all-schedule explorations of five "
+                  "handed a CyclicDependencyError, and for some target it is the first failed result, the one dawn's target.go reports "
+                  "(cycle_reported_first; cyclic_results_uniform: a call that found a cycle hands the error out for every dependency); "
+                  "in acyclic builds nothing is reported (acyclic_never_reports). A 2-cycle witness schedule and exhaustive all-schedule explorations of five "
                   "tiny configurations are included as tests. The model is tied to runner.go by replaying hook logs of real runs "
                   "(every waiting.Load observes the model's nil/non-nil; publish/clear/walk order). Direct oracles: watchdog (no "
-                  "hang, all goroutines end), cyclic => Run fails and a cycle error was produced, acyclic => none.",
+                  "hang, all goroutines end), controlled scheduler (no state in which the build has not ended and no goroutine can "
+                  "run), cyclic => Run fails, a cycle error was produced and is some target's first failed result, and end to end a "
+                  "TargetFailed event carries it; acyclic => none.",
     "level_note": "Trusted: Coq kernel; the hook dispatcher; Go's scheduler fairness (deadlock freedom + bounded schedules give "
                   "termination under any fair scheduler); sync.Cond wake-ups (a model Wait is enabled iff the dependency is not "
                   "Running). The model is of the repaired code (visited set in engine.check, fix 38094ed); without it "
-                  "`terminates` is false (F11). Schedules on the implementation are sampled (seeded jitter), not enumerated.",
+                  "`terminates` is false (F11). Schedules on the implementation are sampled (seeded jitter on the real scheduler; seeded "
+                  "policies under the controlled scheduler, which serialises the goroutines at hook granularity on one processor), not "
+                  "enumerated. The controlled scheduler trusts runtime.Stack's goroutine states for its deadlock verdict.",
     "design_ref": "DESIGN.md §6 C05, Appendix B",
 }
 
 SIZES = {"quick": (300, 3, 1500), "thorough": (4000, 15, 12000)}
+# controlled scheduler: (schedules per graph x policy, random graphs)
+CTL_SIZES = {"quick": (1, 40), "thorough": (12, 400)}
+# end to end (real projects through dawn.Load / Project.Run): builds per graph
+E2E_ROUNDS = {"quick": 2, "thorough": 12}
+E2E_FILE = os.path.join(rcommon.HARNESS, "overlay/root/zz_verif_c05_e2e_test.go")
+E2E_OWN = ("terminates", "cyclic_build_fails", "cycle_reported_e2e", "no_false_cycle_e2e")
+
+
+def run_e2e(ctx, res):
+    """Real projects generated from the graph family, built through dawn.Load / Project.Run with a recording Events; once on all
+    CPUs and once pinned to one CPU (the runner's gate limit is runtime.NumCPU(): limit 1)."""
+    import json
+    rounds = E2E_ROUNDS["quick" if ctx.quick() else "thorough"]
+    for name, extra, rnds in (("all-cpus", None, rounds), ("limit-1", ["-exec", "taskset -c 0"], max(1, rounds // 2))):
+        out = os.path.join(ctx.tmp, "c05_e2e_%s.jsonl" % name)
+        try:
+            rc, o = ctx.go_overlay_test("", {"zz_verif_c05_e2e_test.go": E2E_FILE}, "^TestVerifC05EndToEnd$",
+                                        {"VERIF_E2E_OUT": out, "VERIF_E2E_ROUNDS": str(rnds)}, timeout=900, extra=extra)
+        except Exception as e:  # noqa
+            rc, o = -1, repr(e)
+        builds, oracles, ended = {}, [], False
+        if os.path.exists(out):
+            for line in open(out):
+                line = line.rstrip("\n")
+                if line.startswith("{"):
+                    try:
+                        b = json.loads(line)
+                        builds[b["build"]] = b
+                    except ValueError:
+                        pass
+                elif line.startswith("ORACLE\t"):
+                    f = line.split("\t")
+                    oracles.append((f[1], int(f[2]), f[3]))
+                elif line.startswith("END\t"):
+                    ended = True
+        res[name] = {"rc": rc, "out": o, "builds": builds, "oracles": oracles, "ended": ended, "cpus": name}
+
+
+def report_e2e(ctx, res):
+    total, cyc, reported = 0, 0, 0
+    for name, r in sorted(res.items()):
+        how = ("go test -tags verif -overlay (harness/overlay/root/zz_verif_c05_e2e_test.go) -run ^TestVerifC05EndToEnd$ . %s; or by "
+               "hand: an empty dawn.toml and the BUILD.dawn below in a directory, dawn.Load, Project.Run(//:t0) with an Events "
+               "implementation that records TargetFailed" % ("(under taskset -c 0: gate limit 1)" if name == "limit-1" else ""))
+        if not r["ended"] and not r["oracles"]:
+            ctx.violation("the end-to-end harness failed to build or run against /repo (%s, exit %s)" % (name, r["rc"]),
+                          {"theorem_or_correspondence": "C05 end-to-end harness", "output": r["out"][-3000:]}, found_input=False)
+            continue
+        total += len(r["builds"])
+        cyc += sum(1 for b in r["builds"].values() if b.get("cyclic"))
+        reported += sum(1 for b in r["builds"].values() if b.get("cyclic_reports"))
+        own = [x for x in r["oracles"] if x[0] in E2E_OWN]
+        other = [x for x in r["oracles"] if x[0] not in E2E_OWN]
+        seen_graphs = set()
+        for oname, bid, detail in own:
+            b = r["builds"].get(bid, {})
+            if (oname, b.get("graph")) in seen_graphs or len(seen_graphs) >= 2:
+                continue
+            seen_graphs.add((oname, b.get("graph")))
+            ctx.violation("implementation violates C05 oracle %s (end to end, %s): graph %s: %s" % (oname, name, b.get("graph"), detail),
+                          {"oracle": oname, "detail": detail, "graph": b.get("graph"), "BUILD.dawn": b.get("build_file"),
+                           "requested": "//:t0", "cycle_reachable": b.get("cyclic"), "Run_error": b.get("run_error"),
+                           "TargetFailed_events": b.get("target_failed"), "cyclic_reports": b.get("cyclic_reports"),
+                           "failing_builds_of_this_kind": len([x for x in own if x[0] == oname]), "how": how})
+        if other and not own:
+            oname, bid, detail = other[0]
+            ctx.violation("the end-to-end harness's own sanity check failed (%s): %s" % (oname, detail),
+                          {"theorem_or_correspondence": "C05 end-to-end harness", "build": r["builds"].get(bid)}, found_input=False)
+    ctx.coverage["correspondence"]["end_to_end"] = {
+        "builds": total, "with_reachable_cycle": cyc, "builds_in_which_a_TargetFailed_event_carried_the_cycle_error": reported,
+        "passes": sorted(res.keys())}
+    return total
 
 
 def run(ctx):
+    import threading
+    rep, nrand = CTL_SIZES["quick"] if ctx.quick() else CTL_SIZES["thorough"]
+    e2e = {}
+    th = threading.Thread(target=run_e2e, args=(ctx, e2e))
+    th.start()
     rcommon.run_check(ctx, "C05", "Runner/Props_C05.v", SIZES,
                       "C05 oracles: watchdog (Run returns and every goroutine ends within 10 s); a cycle reachable from the root => Run "
-                      "returns an error and a CyclicDependencyError was produced; acyclic => no CyclicDependencyError.")
+                      "returns an error, a CyclicDependencyError was produced, and for some target it is the FIRST failed result (what "
+                      "dawn's target.go reports); acyclic => no CyclicDependencyError.",
+                      extra_files={"zz_verif_c05_ctl_test.go": rcommon.CTL_FILE},
+                      more_runs=lambda c: rcommon.run_controlled(c, "C05", rep, nrand))
+    th.join()
+    n = report_e2e(ctx, e2e)
+    runs = getattr(ctx, "runner_runs", [])
+    ctl = [r for r in runs if r.get("controlled")]
+    if ctl:
+        pol = {}
+        for r in ctl:
+            pol[r["controlled"]] = pol.get(r["controlled"], 0) + 1
+        st = [r.get("ctl_stats") or [0, 0, 0] for r in ctl]
+        ctx.coverage["correspondence"]["controlled_scheduler"] = {
+            "runs": len(ctl), "policies": pol, "releases": sum(x[0] for x in st), "runtime_state_checks": sum(x[1] for x in st),
+            "checks_that_found_the_build_not_settled": sum(x[2] for x in st),
+            "verdicts": sorted({r["verdict"] for r in ctl if r.get("verdict")})}
+    if isinstance(ctx.coverage.get("rule"), str):
+        ctx.coverage["rule"] += (
+            " Added for C05: (a) the graph family 'cycle of length 1..4 whose members have another dependency (ok / failing / unknown "
+            "/ shared / a chain) before, after or around the closing edge', cycles behind a foreign root, chords, 4- and 5-cycles, in "
+            "the free-running runs above; (b) %d runs of the same graphs, the fixed corpus and random graphs under the CONTROLLED "
+            "scheduler (one goroutine released at a time at the hook points, policies random / sticky / lockstep / pct, limits "
+            "1,2,3,16; deadlock = build not ended, no goroutine parked at a hook, none runnable according to the Go runtime's own "
+            "goroutine states), also replayed by the model; (c) %d real projects generated from the family (and acyclic controls) "
+            "built end to end through dawn.Load / Project.Run on all CPUs and pinned to one CPU (gate limit 1), oracle: a "
+            "TargetFailed event carries the CyclicDependencyError iff a cycle is reachable from the requested target."
+            % (len(ctl), n))
+    ctx.coverage["evaluations"] = ctx.coverage.get("evaluations", 0) + n
